@@ -840,7 +840,7 @@ def execute(plan, want_logs=False):
             if out[0] == "ok":
                 report("SCORED_INVALID", name, "%s: %s returned %s although: %s" % (ctx, name, core.brief(out[1], 120), why))
             elif not isinstance(out[1], case.allowed):
-                report("WRONG_EXCEPTION", name, "%s: %s raised %s (%s) for: %s" % (
+                report("WRONG_EXCEPTION", name + ":" + type(out[1]).__name__, "%s: %s raised %s (%s) for: %s" % (
                     ctx, name, type(out[1]).__name__, core.scrub(str(out[1]))[:120], why))
         for name, thunk in case.type_only:
             out = _try(thunk)
@@ -849,7 +849,7 @@ def execute(plan, want_logs=False):
             outcomes.append((name, out[0] if out[0] == "ok" else type(out[1]).__name__))
             stats.see("tuples", (task, fk, "INVALID_CHECKED/type-only", name, outcomes[-1][1]))
             if out[0] == "exc" and not isinstance(out[1], case.allowed):
-                report("WRONG_EXCEPTION", name, "%s: %s raised %s (%s) on convention-violating input" % (
+                report("WRONG_EXCEPTION", name + ":" + type(out[1]).__name__, "%s: %s raised %s (%s) on convention-violating input" % (
                     ctx, name, type(out[1]).__name__, core.scrub(str(out[1]))[:120]))
         seams.WARN.take()
         log.add("step", n, task, fk, case.verdict, outcomes)
